@@ -152,7 +152,7 @@ func (e *Eng) constArray(g *ssa.Global) (string, bool) {
 			}
 		}
 	}
-	e.pre.asserts.WriteString("(assert (= " + name + " " + val + "))\n")
+	e.pre.asserts.WriteGlobal("(assert (= " + name + " " + val + "))\n")
 	return name, true
 }
 
